@@ -87,15 +87,37 @@ def gen_tweak(rng, n, with_null=True, stats=None):
                 key = rng.bytes(ks)
                 L.append("%s.set_tweaked_key t %s %d" % (fam, hx(key), ks))
                 L.append("%s.tenc t %s" % (fam, hx(rng.bytes(bs))))      # fresh: zero tweak
+                last = None
                 for _ in range(rng.below(6)):
+                    r = rng.below(12)
+                    if r >= 10 and last is not None:
+                        # related tweaks: a prefix of the previous tweak, the same tweak again, the previous tweak with a
+                        # changed tail, or a zero prefix (what a change-detection shortcut would get wrong)
+                        kind = rng.below(4)
+                        tl = 1 + rng.below(bs)
+                        if kind == 0: tw = last[:tl]
+                        elif kind == 1: tw, tl = last, len(last)
+                        elif kind == 2: tw = last[:tl - 1] + bytes([last[tl - 1] ^ (1 + rng.below(255))]) if tl <= len(last) else (last + rng.bytes(tl))[:tl]
+                        else: tw = bytes(tl)
+                        if len(tw) < tl: tw = tw + bytes(tl - len(tw))
+                        L.append("%s.set_tweak t %s %d" % (fam, hx(tw), tl))
+                        if stats: stats.cls("tweak-related-%d" % kind)
+                        last = tw + bytes(bs - tl)
+                        blk = rng.bytes(bs)
+                        L.append("%s.tenc t %s" % (fam, hx(blk)))
+                        L.append("%s.tdec t %s" % (fam, hx(blk)))
+                        continue
                     r = rng.below(10)
                     if r == 0 and with_null:
                         L.append("? %s.set_tweak t NULL %d" % (fam, 1 + rng.below(bs)))
                         if stats: stats.cls("null-tweak")
+                        last = bytes(bs)
                     else:
                         tl = bs if r < 5 else 1 + rng.below(bs)
-                        L.append("%s.set_tweak t %s %d" % (fam, hx(rng.bytes(tl)), tl))
+                        tw = rng.bytes(tl)
+                        L.append("%s.set_tweak t %s %d" % (fam, hx(tw), tl))
                         if stats: stats.cls("tweak-len-%d" % tl)
+                        last = tw + bytes(bs - tl)
                     blk = rng.bytes(bs)
                     L.append("%s.tenc t %s" % (fam, hx(blk)))
                     L.append("%s.tdec t %s" % (fam, hx(blk)))
@@ -174,6 +196,21 @@ def gen_ctr(rng, n, B=8, set_counter_always=False, stats=None, fams=("ctr128", "
                 L.append("%s.encrypt c %s" % (fam, hx(rng.bytes(rng.below(2 * B * bs)))))
             L.append("%s.cleanup c" % fam)
         scripts.append(("ctr-%s" % fam, L))
+        # directed: counters whose increments carry through many bytes / wrap around / enter the pad byte of a
+        # short counter, long enough for every lane of every back end to step at least twice
+        hard = [bytes([0xff]) * (bs - 1) + bytes([0xfd]), bytes([0x3a]) + bytes([0xff]) * (bs - 2) + bytes([0xf5]),
+                bytes([0xff]) * (bs - 2) + bytes([0xfa]), bytes(bs - 2) + bytes([0xff, 0xf9]), bytes(bs - 3) + bytes([0xfe, 0xff, 0xfc])]
+        D = ["h.new c zero", "%s.init c" % fam] + ctr_key_lines(rng, fam, "c")
+        for hc in (hard if n > 8 else [hard[rng.below(2)], hard[2], hard[3 + rng.below(2)]]):
+            D.append("%s.set_counter c %s %d" % (fam, hx(hc), len(hc)))
+            total = 3 * B * bs + 5
+            if rng.chance(0.5):
+                D.append("%s.encrypt c %s" % (fam, hx(rng.bytes(total))))
+            else:
+                for c in cut_sizes(rng, bs, B, total): D.append("%s.encrypt c %s" % (fam, hx(rng.bytes(c))))
+            if stats: stats.cls("directed-carry")
+        D.append("%s.cleanup c" % fam)
+        scripts.append(("ctr-carry-%s" % fam, D))
     return scripts
 
 def gen_ctr_midstream(rng, n, stats=None):
@@ -192,6 +229,19 @@ def gen_ctr_midstream(rng, n, stats=None):
             L.append("%s.cleanup c" % fam)
             if stats: stats.cls("midstream-rekey")
         scripts.append(("midstream-%s" % fam, L))
+        # directed: the change lands on every block boundary inside a batch, just off a boundary, and on batch boundaries
+        D = ["h.new c zero", "%s.init c" % fam]
+        offs = [bs * k for k in range(1, 10)] + [5, bs + 3, 8 * bs - 1, 8 * bs + 1, 4 * bs - 1]
+        if n <= 8: offs = [bs, 2 * bs, 3 * bs, 5 * bs, 7 * bs, 8 * bs, 5, 4 * bs + 1]
+        for off in offs:
+            D += ctr_key_lines(rng, fam, "c")
+            D.append("%s.set_counter c %s %d" % (fam, hx(rng.bytes(bs)), bs))
+            D.append("%s.encrypt c %s" % (fam, hx(rng.bytes(off))))
+            D += ctr_key_lines(rng, fam, "c")
+            D.append("%s.encrypt c %s" % (fam, hx(rng.bytes(2 * bs + 3))))
+            if stats: stats.cls("midstream-aligned" if off % bs == 0 else "midstream-unaligned")
+        D.append("%s.cleanup c" % fam)
+        scripts.append(("midstream-directed-%s" % fam, D))
     return scripts
 
 # ------------------------------------------------------------------ C07: parallel ECB
@@ -395,4 +445,55 @@ def gen_api_walk(rng, n_walks, steps, invalid_rate=0.2, lifecycle=True, fail_rat
             if state[h] in ("live", "keyed"): L.append("%s.cleanup %s" % (fam, h))
         L.append("heap")
         scripts.append(("walk-%s-%d" % (fam, w), L))
+    return scripts
+
+
+def gen_invalid_midstream(rng, n, stats=None):
+    """C14: every class of invalid call placed in the middle of a CTR stream (at a position that is not a block
+    boundary, so keystream is buffered) or between parallel calls; the following output must be what it would
+    have been without the call"""
+    scripts = []
+    for fam, base, bs in (("ctr128", "s128", 16), ("ctr64", "s64", 8), ("mctr", "mantis", 8)):
+        for w in range(n):
+            L = ["h.new a zero", "%s.init a" % fam]
+            if base == "mantis":
+                L.append("mctr.set_key a %s 16 %d" % (hx(rng.bytes(16)), 5 + rng.below(4)))
+                L.append("mctr.set_tweak a %s 8" % hx(rng.bytes(8)))
+            else:
+                ks = rng.choice(FAM[base][2])
+                L.append("%s.set_tweaked_key a %s %d" % (fam, hx(rng.bytes(ks)), ks))
+                L.append("%s.set_tweak a %s %d" % (fam, hx(rng.bytes(bs)), bs))
+            L.append("%s.set_counter a %s %d" % (fam, hx(rng.bytes(bs)), bs))
+            for rep in range(4):
+                n1 = rng.below(9 * bs) + 1
+                if rng.chance(0.8) and n1 % bs == 0: n1 += 1 + rng.below(bs - 1)
+                L.append("%s.encrypt a %s" % (fam, hx(rng.bytes(n1))))
+                k = rng.bytes(3 * bs + 1)
+                if base == "mantis":
+                    bad = ["mctr.set_key a NULL 16 5", "mctr.set_key a %s 15 5" % hx(k[:15]), "mctr.set_key a %s 16 4" % hx(k[:16]), "mctr.set_key a %s 16 9" % hx(k[:16]),
+                           "mctr.set_tweak a %s 7" % hx(k[:7]), "mctr.set_tweak a %s 9" % hx(k[:9]), "mctr.set_tweak a NULL 0",
+                           "mctr.set_counter a %s 9" % hx(k[:9]), "mctr.encrypt a NULL"]
+                else:
+                    bad = ["%s.set_key a NULL %d" % (fam, bs), "%s.set_key a %s %d" % (fam, hx(k[:bs - 1]), bs - 1), "%s.set_key a %s %d" % (fam, hx(k), 3 * bs + 1),
+                           "%s.set_tweaked_key a NULL %d" % (fam, bs), "%s.set_tweaked_key a %s %d" % (fam, hx(k[:bs - 1]), bs - 1), "%s.set_tweaked_key a %s %d" % (fam, hx(k[:2 * bs + 1]), 2 * bs + 1),
+                           "%s.set_tweak a %s 0" % (fam, hx(k[:bs])), "%s.set_tweak a %s %d" % (fam, hx(k[:bs + 1]), bs + 1), "%s.set_tweak a NULL 0" % fam, "%s.set_tweak a NULL %d" % (fam, bs + 1),
+                           "%s.set_counter a %s %d" % (fam, hx(k[:bs + 1]), bs + 1), "%s.encrypt a NULL" % fam]
+                c = rng.below(len(bad))
+                if stats: stats.cls("inv-midstream-%s-%d" % (fam, c))
+                L.append(bad[c])
+                L.append("%s.encrypt a %s" % (fam, hx(rng.bytes(rng.below(5 * bs) + 1))))
+            L += ["%s.cleanup a" % fam, "heap"]
+            scripts.append(("invmid-%s-%d" % (fam, w), L))
+    for fam, base, bs in (("par128", "s128", 16), ("par64", "s64", 8)):
+        for w in range(max(1, n // 2)):
+            ks = rng.choice(FAM[base][1])
+            L = ["h.new a zero", "%s.init a" % fam, "%s.set_key a %s %d" % (fam, hx(rng.bytes(ks)), ks)]
+            for rep in range(3):
+                k = rng.bytes(3 * bs + 1)
+                bad = ["%s.set_key a NULL %d" % (fam, bs), "%s.set_key a %s %d" % (fam, hx(k[:bs - 1]), bs - 1), "%s.set_key a %s %d" % (fam, hx(k), 3 * bs + 1),
+                       "%s.encrypt a %s" % (fam, hx(k[:bs + 3]))]
+                L.append(bad[rng.below(len(bad))])
+                L.append("%s.%s a %s" % (fam, rng.choice(["encrypt", "decrypt"]), hx(rng.bytes(bs * (1 + rng.below(10))))))
+            L += ["%s.cleanup a" % fam, "heap"]
+            scripts.append(("invmid-%s-%d" % (fam, w), L))
     return scripts
